@@ -24,7 +24,7 @@ B0 = 150000      # steps; >= 25x what any small-input operation used on the repa
 B1 = 8000        # steps per input character (measured maximum 320)
 WALL_BACKSTOP_S = 60
 MAX_HANGS_PER_WORKER = 6
-RULE = ("(a) every string over a 24-token docstring alphabet up to length 3 (quick) / 4 (thorough) plus seeded longer "
+RULE = ("(a) every string over a 26-token docstring alphabet up to length 3 (quick) / 4 (thorough) plus seeded longer "
         "ones, each fed to the docstring parser (two option sets), the three docstring round-trips and embedded in a "
         "function and a class for the source parsers; (b) seeded interface specs whose prose is drawn from a pool of "
         "empty / whitespace-only / leading-blank / header-without-body / back-tick strings through all nine emitters "
@@ -42,7 +42,7 @@ STUBBED = ["time: the clock is the count of cdd line events (sys.settrace), neve
 
 TOKENS = (":param x:", ":type x:", ":return:", ":rtype:", "Args:", "Returns:", "Parameters\n----------",
           "Returns\n-------", "x", "int", "`", "```", ":", "\n", "    ", " ", "(", ")", "Defaults to 5", ".",
-          "\t", " or ", " of ", ",")
+          "\t", " or ", " of ", ",", '"', "'")
 WHITESPACE_VARIANTS = ("\t", "\r", "\x0b", "\x0c", "\u00a0", "  ", "\n", " \n", "\t\t")
 CORE = (":param x:", ":type x:", ":return:", "Args:", "Parameters\n----------", "x", "```", ":", "\n", "    ", " ", "`")
 PROSE = ("", " ", "   ", "\n", "\t", "   \nfoo", "\n\nfoo", " \n \n bar", "foo\n\n   \nbar", "  leading", "trailing   ",
@@ -50,7 +50,11 @@ PROSE = ("", " ", "   ", "\n", "\t", "   \nfoo", "\n\nfoo", " \n \n bar", "foo\n
          "x\n    y\n        z", "Args:", "Returns:", "Parameters\n----------", ":return:", "a\n\n\n\nb", "(", "[x",
          "the first thing", "Number of things.", "either `a` or `b`", "\n   ", "   \n", "\r\n", "- item\n- item",
          "the\tvalue, an int or a str", "List of\tint or str", "a\x0bb or c", "either\u00a0x or y", "one of 'a', 'b'\tor 'c'",
-         "int or\rstr", "Dict of\x0cstr", "x or", "or y", "of", "a or b or", "`a`, `b`, or\t`c`")
+         "int or\rstr", "Dict of\x0cstr", "x or", "or y", "of", "a or b or", "`a`, `b`, or\t`c`",
+         # quotes inside quotes, unterminated quotes, apostrophes — in the or/of shapes and in default announcements
+         'Either "it\'s" or "no".', "one of 'a\"b' or 'c'", '"unterminated or x', "it's or that's", "'a' or \"b'",
+         "Defaults to 'auto", 'Defaults to "', "the owner's login or none", "List of \"x'y\" or 'z'",
+         "overrides the defaults from the config file", "the Defaults section or none", "defaults")
 STYLES = ("rest", "google", "numpydoc")
 
 
